@@ -228,6 +228,7 @@ def families(np, mp):
     power("a0*x^3", "a0*cube(x)", lambda p: 3, a0s)
     power("a0*x^4", "a0*x**4", lambda p: 4, a0s)
     power("x^3 (no parameter)", "pow(x,3)", lambda p: 3, [()])
+    power("1 (x/x: the antiderivative is x itself)", "x/x", lambda p: 0, [()])
     power("2 (no parameter, scalar)", "2", lambda p: 0, [()])
     F[-1]["exact"] = lambda X, p: (mp.mpf(X) - 1) / mp.sqrt(2)
     power("a0*x^a1", "a0*pow(x,a1)", lambda p: p[1], [(1.0, 2.5), (2.0, -1.0), (0.5, 3.3), (1.0, 2.0)])
@@ -312,6 +313,14 @@ def numeric_case(np, mp, L, fam, p, zp1, eq_num, eq_an):
     gx = np.asarray(L.data_x, dtype=float)
     if mu.shape != zp1.shape or not np.all(np.diff(gx) > 0) or not np.all(np.isin(zp1, gx)):
         return [("grid", "grid not increasing / data point missing / %d predictions for %d redshifts" % (mu.size, zp1.size))], None
+    # "its grid": min_nz nodes on [1, min(1+z)] and nodes delta_z apart above (linspace(.., ceil(range / delta_z)) gives a spacing below
+    # 2 delta_z for every range); a grid coarser than twice its nominal spacing is not the object's grid any more
+    lo_h = (zp1.min() - 1.0) / max(1, L.min_nz - 1)
+    gaps = np.diff(gx)
+    upper = gaps[gx[:-1] >= zp1.min()]
+    if (gaps[gx[:-1] < zp1.min()] > 2 * max(lo_h, 1e-300) * (1 + 1e-9)).any() or (upper.size and upper[gx[:-1][gx[:-1] >= zp1.min()] < zp1.max()].max(initial=0.0) > 2 * L.delta_z * (1 + 1e-9)):
+        out.append(("grid_spacing", "integration grid for a sample spanning 1+z in [%.4g, %.4g] has gaps up to %.4g above the first data point (delta_z = %.3g) and %.4g below it (min_nz = %d)" % (
+            zp1.min(), zp1.max(), upper.max(initial=0.0), L.delta_z, gaps[gx[:-1] < zp1.min()].max(initial=0.0), L.min_nz)))
     ux = np.unique(zp1)
     Iu = {float(v): fam["exact"](float(v), p) for v in ux}
     I = np.array([float(Iu[float(v)]) for v in zp1])
@@ -332,7 +341,10 @@ def numeric_case(np, mp, L, fam, p, zp1, eq_num, eq_an):
         try:
             with warnings.catch_warnings():
                 warnings.simplefilter("ignore")
-                raw = L.get_pred(zp1.copy(), a, eq_an, integrated=True)
+                zarg = zp1.copy()
+                raw = L.get_pred(zarg, a, eq_an, integrated=True)
+                if not np.array_equal(zarg, zp1):
+                    out.append(("analytic", "get_pred(integrated=True) overwrote the redshift array it was given (1+z = %s became %s): every later prediction on the same data is wrong" % (zp1[:3], zarg[:3])))
                 raw = np.atleast_1d(np.asarray(getattr(raw, "value", raw)))
                 if np.iscomplexobj(raw):
                     raw = np.where(np.abs(raw.imag) <= 1e-12 * np.maximum(1.0, np.abs(raw.real)), raw.real, np.nan)      # a complex prediction is rejected by negloglike (inf)
